@@ -174,20 +174,29 @@ mod proofs {
             None => { assert!(a.year() == -262143); }
         }
     }
-    /// C01.window_edges: with the tests exactly as written in match_bed_and_breakfast, D+30 is accepted, D+31 and D are not
+    /// C01.window_edges (decision logic, complete over every i64 day difference): with the two tests exactly as written in
+    /// match_bed_and_breakfast, a purchase is taken iff 1 <= days <= 30: day 30 is in, day 31 and day 0 (or earlier) are out.
     #[kani::proof]
-    fn k_window_edges() {
-        let d = any_date();
-        let x = any_date();
-        let days_diff = super::extracted::bnb_days_diff(x, d);
-        let skipped_as_not_after = super::extracted::bnb_not_after(days_diff);
-        let beyond = super::extracted::bnb_beyond_window(days_diff);
-        let accepted = !skipped_as_not_after && !beyond;
-        if let Some(d30) = d.checked_add_signed(Duration::days(30)) { if x == d30 { assert!(accepted); } }
-        if let Some(d31) = d.checked_add_signed(Duration::days(31)) { if x == d31 { assert!(!accepted && beyond); } }
-        if x <= d { assert!(!accepted); }
-        if let Some(d1) = d.succ_opt() { if x == d1 { assert!(accepted); } }
-        assert!(accepted == (d < x && (x - d).num_days() <= 30));
+    fn k_window_logic() {
+        let n: i64 = kani::any();
+        let accepted = !super::extracted::bnb_not_after(n) && !super::extracted::bnb_beyond_window(n);
+        assert!(accepted == (n >= 1 && n <= 30));
+        if n == 30 { assert!(accepted); }
+        if n == 31 || n <= 0 { assert!(!accepted); }
+        // the window test may stop the scan (break) only beyond the window, never inside it
+        if super::extracted::bnb_beyond_window(n) { assert!(n > 30); }
         kani::cover!(accepted);
+        kani::cover!(!accepted);
+    }
+    /// C01.window_edges (calendar part): the day difference computed as in match_bed_and_breakfast is k for the date k days after D,
+    /// for every D and every k in -3..=35 (so D+30, D+31, D and month/year ends are all covered).
+    #[kani::proof]
+    fn k_window_days_diff() {
+        let d = any_date();
+        let k: i64 = kani::any();
+        kani::assume(k >= -3 && k <= 35);
+        if let Some(x) = d.checked_add_signed(Duration::days(k)) {
+            assert!(super::extracted::bnb_days_diff(x, d) == k);
+        }
     }
 }
